@@ -612,15 +612,124 @@ Proof.
     destruct Hc as [Hc|[Hc|Hc]]; [discriminate|right; auto|left; auto].
 Qed.
 
+(* ------------------------------------------------------------------ texts *)
+Lemma sappend_nil_r : forall s : string, (s ++ "")%string = s.
+Proof. induction s; cbn; congruence. Qed.
+
+Lemma ends_ws_app : forall a b, b <> "" -> ends_ws (a ++ b)%string = ends_ws b.
+Proof.
+  induction a as [|c a IH]; intros b Hb; [reflexivity|].
+  cbn [append ends_ws]. rewrite IH by exact Hb.
+  destruct (a ++ b)%string eqn:E; [|reflexivity].
+  destruct a; cbn in E; [contradiction|discriminate].
+Qed.
+
+Lemma ends_ws_allws : forall t, all_ws t = true -> t <> "" -> ends_ws t = true.
+Proof.
+  induction t as [|a t IH]; intros H Hn; [contradiction|].
+  cbn in H. apply andb_true_iff in H. destruct H as [Ha Ht].
+  cbn [ends_ws]. destruct t; [exact Ha|]. apply IH; [exact Ht|discriminate].
+Qed.
+
+Lemma span_norest_ends : forall t b, span_body t = (b, "") -> ends_ws t = false.
+Proof.
+  induction t as [|a t IH]; intros b H; [reflexivity|].
+  cbn in H. destruct (is_ws a) eqn:Ea; [discriminate|].
+  destruct (span_body t) as [b1 r1] eqn:E. inversion H; subst.
+  cbn [ends_ws]. destruct t; [exact Ea|]. eapply IH; reflexivity.
+Qed.
+
+Lemma ends_ws_noblank : forall t, cnt_txt_ok t = true -> ends_ws t = false.
+Proof.
+  intros t H. unfold cnt_txt_ok, rest_of in H. apply andb_true_iff in H. destruct H as [_ H].
+  destruct (span_body t) as [b r] eqn:E. cbn in H. apply String.eqb_eq in H. subst. eapply span_norest_ends; eauto.
+Qed.
+
+Lemma ends_ws_word : forall t, word_ok t = true -> ends_ws t = ends_blank t.
+Proof.
+  intros t H. unfold word_ok, ends_blank, body_of, rest_of in *.
+  destruct (span_body t) as [b r] eqn:E. cbn [fst snd] in *.
+  apply andb_true_iff in H. destruct H as [Hb Hr].
+  destruct (String.eqb_spec r "") as [Er|Er]; cbn.
+  - subst. eapply span_norest_ends; eauto.
+  - rewrite (span_body_app _ _ _ E). rewrite ends_ws_app by exact Er. apply ends_ws_allws; auto.
+Qed.
+
+Lemma word_ok_nonempty : forall t, word_ok t = true -> t <> "".
+Proof. intros t H E. subst. discriminate. Qed.
+
+Lemma span_body_snoc : forall t b, span_body t = (b, "") -> span_body (t ++ " ")%string = (b, " ").
+Proof.
+  induction t as [|a t IH]; intros b H; cbn in H.
+  - inversion H; reflexivity.
+  - cbn [append span_body]. destruct (is_ws a); [discriminate|].
+    destruct (span_body t) as [b1 r1] eqn:E. inversion H; subst.
+    rewrite (IH b1 eq_refl). reflexivity.
+Qed.
+
+Lemma ensure_blank_word : forall t, word_ok t = true ->
+  word_ok (ensure_blank t) = true /\ ends_blank (ensure_blank t) = true /\ ensure_blank t <> "".
+Proof.
+  intros t H. pose proof (word_ok_nonempty _ H) as Hn. unfold ensure_blank.
+  destruct (String.eqb_spec t ""); [contradiction|].
+  rewrite (ends_ws_word _ H). destruct (ends_blank t) eqn:Eb; [auto|].
+  unfold word_ok, ends_blank, body_of, rest_of in *.
+  destruct (span_body t) as [b r] eqn:E. cbn [fst snd] in *.
+  apply negb_false_iff in Eb. apply String.eqb_eq in Eb. subst r.
+  rewrite (span_body_snoc _ _ E). cbn [fst snd]. apply andb_true_iff in H. destruct H as [Hb _].
+  rewrite Hb. cbn. split; [reflexivity|]. split; [reflexivity|]. destruct t; [contradiction|discriminate].
+Qed.
+
+Lemma render_cons : forall p r, render (p :: r) = (piece_text p ++ render r)%string.
+Proof.
+  intros p r. unfold render. cbn [map String.concat].
+  destruct (map piece_text r) eqn:E; cbn [String.concat].
+  - symmetry. apply sappend_nil_r.
+  - reflexivity.
+Qed.
+
+Lemma sappend_assoc : forall a b c : string, ((a ++ b) ++ c)%string = (a ++ b ++ c)%string.
+Proof. induction a; intros; cbn; congruence. Qed.
+
+Lemma render_app : forall a b, render (a ++ b) = (render a ++ render b)%string.
+Proof.
+  induction a as [|p a IH]; intros b; [reflexivity|].
+  cbn [app]. rewrite !render_cons, IH. symmetry. apply sappend_assoc.
+Qed.
+
+Lemma sappend_nonempty_r : forall a b : string, b <> "" -> (a ++ b)%string <> "".
+Proof. intros [|c a] b H; cbn; [exact H|discriminate]. Qed.
+
+(* what follows the body of a shortcut: its end padding and, when ListNode.format needs it, one more blank *)
+Lemma tail_reads : forall body pad (is_last : bool), all_ws pad = true -> render body <> "" ->
+  exists suffix, blank_after is_last (body ++ pad_pieces pad) = body ++ suffix /\
+    forall r g acc, (ends_ws (render body) = true -> g = []) -> (is_last = true -> r = []) ->
+      piece_tokens_aux (suffix ++ r) g acc = piece_tokens_aux r [] (flush g acc).
+Proof.
+  intros body pad is_last Hw Hb. unfold blank_after.
+  destruct (String.eqb_spec pad "") as [E|E].
+  - subst pad. rewrite pad_pieces_nil, app_nil_r.
+    destruct (String.eqb_spec (render body) ""); [contradiction|]. cbn [negb andb].
+    destruct is_last; cbn [negb andb].
+    + exists []. split; [rewrite app_nil_r; reflexivity|].
+      intros r g acc _ Hr. rewrite (Hr eq_refl). reflexivity.
+    + destruct (ends_ws (render body)) eqn:Ee; cbn [negb].
+      * exists []. split; [rewrite app_nil_r; reflexivity|].
+        intros r g acc Hg _. rewrite (Hg eq_refl). reflexivity.
+      * exists [PcPad " "]. split; [reflexivity|].
+        intros r g acc _ _. cbn [app]. apply pt_pad; [reflexivity|discriminate].
+  - rewrite pad_pieces_cons by exact E.
+    assert (Hr : render (body ++ [PcPad pad]) = (render body ++ pad)%string).
+    { rewrite render_app, render_cons. cbn [piece_text render map String.concat]. rewrite sappend_nil_r. reflexivity. }
+    rewrite Hr. rewrite ends_ws_app by exact E. rewrite (ends_ws_allws _ Hw E).
+    rewrite andb_false_r.
+    exists [PcPad pad]. split; [reflexivity|].
+    intros r g acc _ _. cbn [app]. apply pt_pad; auto.
+Qed.
+
 (* ------------------------------------------------------------------ one node *)
-Definition node_pieces (n : lnode) (is_last : bool) : res (list piece) :=
-  match n with
-  | NVal l => let autopad := negb (lpad l) && negb is_last && negb (lnever l) in
-              Ok [PcLeaf (lval l) (if autopad then ltxtsp l else ltxt l)]
-  | NSc s => format_sc s None
-  end.
-Definition node_diag (n : lnode) (is_last : bool) : string :=
-  match n with NVal l => free_leaf_diag l is_last | NSc s => sc_diag s false is_last end.
+Definition node_pieces (n : lnode) (is_last : bool) : res (list piece) := node_out n None is_last.
+Definition node_diag (n : lnode) (is_last : bool) : string := node_diag_of n None is_last.
 
 (* the pieces [ps] of a node read as the tokens [toks], and leave no open token behind *)
 Definition reads_as (ps : list piece) (toks : list tok) (is_last : bool) : Prop :=
@@ -631,27 +740,20 @@ Definition means (toks : list tok) (exp : list val) : Prop :=
   forall prev rest, exists prev',
     spec_expand_aux prev (toks ++ rest) = option_map (app exp) (spec_expand_aux prev' rest).
 
-Lemma endpad_ok : forall s lb is_last, endpad_diag s lb is_last = "" ->
-  all_ws (sendpad s) = true /\ (is_last = true \/ lb = true \/ sendpad s <> "").
+Lemma endpad_ok : forall s, endpad_diag s = "" -> all_ws (sendpad s) = true.
 Proof.
-  intros s lb is_last H. unfold endpad_diag in H. apply sapp_nil in H. destruct H as [H1 H2].
-  apply code_nil in H1; [|discriminate]. apply code_nil in H2; [|discriminate].
-  apply negb_false_iff in H1. split; auto.
-  destruct is_last; [left; reflexivity|]. destruct lb; [right; left; reflexivity|].
-  cbn in H2. apply negb_false_iff in H2. right; right. intros E. rewrite E in H2. discriminate.
+  intros s H. unfold endpad_diag in H. apply code_nil in H; [|discriminate]. apply negb_false_iff in H. exact H.
 Qed.
 
-Lemma inner_leaf_ok : forall l, inner_leaf_diag l = "" ->
-  word_ok (ltxt l) = true /\ ends_blank (ltxt l) = true.
+Lemma inner_leaf_ok : forall l, inner_leaf_diag l = "" -> word_ok (ltxt l) = true.
 Proof.
   intros l H. unfold inner_leaf_diag in H.
   destruct (String.eqb (ltxt l) ""); [discriminate|].
-  destruct (word_ok (ltxt l)); [|discriminate]. cbn in H.
-  apply code_nil in H; [|discriminate]. apply negb_false_iff in H. auto.
+  apply code_nil in H; [|discriminate]. apply negb_false_iff in H. exact H.
 Qed.
 
 Lemma count_ok : forall s c omitted, count_diag s c omitted = "" ->
-  omitted = true \/ cnt_txt_ok (fmt_count (snumtok s) (snumog s) c) = true.
+  omitted = true \/ cnt_txt_ok (strip_ws (fmt_count (snumtok s) (snumog s) c)) = true.
 Proof.
   intros s c [|] H; [left; reflexivity|right]. unfold count_diag in H.
   apply code_nil in H; [|discriminate]. apply negb_false_iff in H. exact H.
@@ -660,27 +762,47 @@ Qed.
 Lemma zlen_nat : forall {A} (l : list A), Z.to_nat (zlen l) = List.length l.
 Proof. intros. unfold zlen. apply Nat2Z.id. Qed.
 
-(* [count] letter [end padding] *)
 Definition count_tok (omitted : bool) (c : Z) : option nat := if omitted then None else Some (Z.to_nat c).
 
 Lemma cnt_count_tok : forall omitted c, (omitted = true -> c = 1%Z) -> cnt (count_tok omitted c) = Z.to_nat c.
 Proof. intros [|] c H; cbn; [rewrite (H eq_refl)|]; reflexivity. Qed.
 
-Lemma pt_count_letter : forall s (c : Z) (omitted : bool) k lt pad (is_last : bool) r acc,
-  (0 <= c)%Z -> count_diag s c omitted = "" -> cnt_txt_ok lt = true ->
-  all_ws pad = true -> (is_last = true \/ pad <> "") -> (is_last = true -> r = []) ->
-  piece_tokens_aux ((if omitted then [PcLet k lt] else [count_piece s c; PcLet k lt])
-                    ++ pad_pieces pad ++ r) [] acc
-  = piece_tokens_aux r [] (match k with KM => acc ++ [TBad] | _ => acc ++ [mk_tok k (count_tok omitted c)] end).
+Definition cl_pieces (s : sc) (c : Z) (omitted : bool) (k : kind) (lt : string) : list piece :=
+  if omitted then [PcLet k lt] else [count_piece s c; PcLet k lt].
+Definition cl_tags (c : Z) (omitted : bool) (k : kind) : list tag :=
+  if omitted then [GLet k] else [GCnt c; GLet k].
+
+(* [count] letter: an open token *)
+Lemma pt_count_letter : forall s (c : Z) (omitted : bool) k lt rest acc,
+  count_diag s c omitted = "" -> cnt_txt_ok lt = true ->
+  piece_tokens_aux (cl_pieces s c omitted k lt ++ rest) [] acc = piece_tokens_aux rest (cl_tags c omitted k) acc.
 Proof.
-  intros s c omitted k lt pad is_last r acc Hc Hd Hl Hw Hp Hr.
-  destruct omitted.
-  - cbn [app]. rewrite pt_glue by exact Hl. cbn [app piece_tag].
-    rewrite (pt_finish _ is_last) by auto. destruct k; reflexivity.
+  intros s c omitted k lt rest acc Hd Hl. unfold cl_pieces, cl_tags. destruct omitted.
+  - cbn [app]. rewrite pt_glue by exact Hl. reflexivity.
   - apply count_ok in Hd. destruct Hd as [Hd|Hd]; [discriminate|].
-    cbn [app]. unfold count_piece. rewrite pt_glue by exact Hd. rewrite pt_glue by exact Hl.
-    cbn [app piece_tag]. rewrite (pt_finish _ is_last) by auto.
-    unfold flush, group_tok. destruct (Z.ltb_spec c 0); [lia|]. destruct k; reflexivity.
+    cbn [app]. unfold count_piece. rewrite pt_glue by exact Hd. rewrite pt_glue by exact Hl. reflexivity.
+Qed.
+
+Lemma cl_flush : forall c omitted k acc, (0 <= c)%Z -> k <> KM ->
+  flush (cl_tags c omitted k) acc = acc ++ [mk_tok k (count_tok omitted c)].
+Proof.
+  intros c omitted k acc Hc Hk. unfold cl_tags, count_tok, flush, group_tok. destruct omitted.
+  - reflexivity.
+  - destruct (Z.ltb_spec c 0); [lia|reflexivity].
+Qed.
+
+Lemma cl_render : forall pre s c omitted k lt, cnt_txt_ok lt = true ->
+  render (pre ++ cl_pieces s c omitted k lt) <> "" /\ ends_ws (render (pre ++ cl_pieces s c omitted k lt)) = false.
+Proof.
+  intros pre s c omitted k lt Hl.
+  assert (Hlt : lt <> "") by (intros E; subst; discriminate).
+  assert (E : exists x, render (pre ++ cl_pieces s c omitted k lt) = (x ++ lt)%string).
+  { unfold cl_pieces. destruct omitted; rewrite render_app, !render_cons; cbn [render map String.concat piece_text];
+      rewrite sappend_nil_r.
+    - eexists; reflexivity.
+    - eexists. rewrite <- sappend_assoc. reflexivity. }
+  destruct E as [x E]. rewrite E. split; [apply sappend_nonempty_r; exact Hlt|].
+  rewrite ends_ws_app by exact Hlt. apply ends_ws_noblank. exact Hl.
 Qed.
 
 Lemma vlist_close_app : forall a b c d,
@@ -690,19 +812,13 @@ Proof.
   apply andb_true_iff in H1. destruct H1 as [H1 H3]. rewrite H1. cbn. auto.
 Qed.
 
-Lemma vlist_close_length : forall a b, vlist_close a b = true -> List.length a = List.length b.
-Proof.
-  induction a as [|x a IH]; intros [|y b] H; cbn in *; try discriminate; auto.
-  apply andb_true_iff in H. destruct H. f_equal; auto.
-Qed.
-
 (* --- a free value leaf *)
 Lemma free_leaf_sound : forall l is_last, node_diag (NVal l) is_last = "" ->
   exists ps toks exp, node_pieces (NVal l) is_last = Ok ps /\ reads_as ps toks is_last /\
     means toks exp /\ vlist_close exp [leaf_val l] = true.
 Proof.
-  intros l is_last H. cbn [node_diag] in H. unfold free_leaf_diag in H.
-  cbn [node_pieces]. set (t := if negb (lpad l) && negb is_last && negb (lnever l) then ltxtsp l else ltxt l) in *.
+  intros l is_last H. cbn [node_diag node_diag_of] in H. unfold free_leaf_diag in H.
+  cbn [node_pieces node_out]. set (t := if negb (lpad l) && negb is_last && negb (lnever l) then ltxtsp l else ltxt l) in *.
   destruct (String.eqb t ""); [discriminate|].
   destruct (word_ok t) eqn:Hw; [|discriminate]. cbn in H.
   apply code_nil in H; [|discriminate].
@@ -723,51 +839,67 @@ Proof.
     + reflexivity.
 Qed.
 
-(* --- nJ *)
-Lemma jump_sound : forall s is_last, skind s = KJ -> node_diag (NSc s) is_last = "" ->
-  exists ps toks exp, node_pieces (NSc s) is_last = Ok ps /\ reads_as ps toks is_last /\
+(* --- a shortcut written as a shortcut: [body] is what precedes its end padding *)
+Definition suffix_ok (body suffix : list piece) (is_last : bool) : Prop :=
+  forall r g acc, (ends_ws (render body) = true -> g = []) -> (is_last = true -> r = []) ->
+    piece_tokens_aux (suffix ++ r) g acc = piece_tokens_aux r [] (flush g acc).
+Definition body_sound (s : sc) : Prop :=
+  exists body toks exp,
+    format_sc s None = Ok (body ++ pad_pieces (sendpad s)) /\ render body <> "" /\
+    (forall suffix is_last, suffix_ok body suffix is_last -> reads_as (body ++ suffix) toks is_last) /\
     means toks exp /\ vlist_close exp (map leaf_val (snodes s)) = true.
+
+Lemma render_letter_end : forall pre k lt, cnt_txt_ok lt = true ->
+  render (pre ++ [PcLet k lt]) <> "" /\ ends_ws (render (pre ++ [PcLet k lt])) = false.
 Proof.
-  intros s is_last K H. cbn [node_diag] in H. unfold sc_diag in H. rewrite K in H.
+  intros pre k lt Hl. assert (Hlt : lt <> "") by (intros E; subst; discriminate).
+  rewrite render_app, render_cons. cbn [render map String.concat piece_text]. rewrite sappend_nil_r.
+  split; [apply sappend_nonempty_r; exact Hlt|]. rewrite ends_ws_app by exact Hlt. apply ends_ws_noblank; exact Hl.
+Qed.
+
+(* --- nJ *)
+Lemma jump_sound : forall s, skind s = KJ -> describes s None = true -> sc_diag s false = "" -> body_sound s.
+Proof.
+  intros s K D H. unfold sc_diag in H. rewrite K in H.
   apply sapp_nil in H. destruct H as [Hn H].
   apply sapp_nil in H. destruct H as [Hc H].
   apply sapp_nil in H. destruct H as [Hk He].
   apply code_nil in Hn; [|discriminate]. apply code_nil in Hk; [|discriminate].
-  apply negb_false_iff in Hk. apply endpad_ok in He. destruct He as [Hw Hp].
-  cbn [node_pieces]. unfold format_sc. rewrite K. unfold format_jump. rewrite Hn.
+  apply negb_false_iff in Hk.
+  unfold body_sound, format_sc. rewrite D, K. cbn [negb]. unfold format_jump. rewrite Hn.
   set (omitted := (zlen (snodes s) =? 1)%Z && (Nat.eqb (sorig s) 0 || negb (has_char "1" (sotok s)))) in *.
   set (j := if Nat.ltb 0 (sorig s) && has_char "j" (sotok s) then "j" else "J").
   assert (Hj : cnt_txt_ok j = true) by (subst j; destruct (Nat.ltb 0 (sorig s) && has_char "j" (sotok s)); reflexivity).
   assert (Ho : omitted = true -> zlen (snodes s) = 1%Z).
   { subst omitted. intros E. apply andb_true_iff in E. destruct E as [E _]. apply Z.eqb_eq in E. exact E. }
-  assert (Hp' : is_last = true \/ sendpad s <> "") by (destruct Hp as [?|[?|?]]; auto; discriminate).
   assert (H0 : (0 <= zlen (snodes s))%Z) by (unfold zlen; lia).
-  eexists. exists [TJmp (count_tok omitted (zlen (snodes s)))], (repeat VJ (List.length (snodes s))).
-  split; [reflexivity|]. split; [|split].
-  - intros r acc Hl. rewrite <- app_assoc.
-    rewrite (pt_count_letter s _ omitted KJ j (sendpad s) is_last r acc) by auto. reflexivity.
+  exists (cl_pieces s (zlen (snodes s)) omitted KJ j).
+  exists [TJmp (count_tok omitted (zlen (snodes s)))], (repeat VJ (List.length (snodes s))).
+  destruct (cl_render [] s (zlen (snodes s)) omitted KJ j Hj) as [Hr1 Hr2]. cbn [app] in Hr1, Hr2.
+  split; [unfold cl_pieces; destruct omitted; reflexivity|]. split; [exact Hr1|]. split; [|split].
+  - intros suffix is_last Hs r acc Hl. rewrite <- app_assoc.
+    rewrite pt_count_letter by auto. rewrite Hs; auto.
+    + rewrite cl_flush by (auto; discriminate). reflexivity.
+    + rewrite Hr2. discriminate.
   - intros prev rest. cbn [app spec_expand_aux]. rewrite cnt_count_tok by exact Ho. rewrite zlen_nat.
     eexists. reflexivity.
   - exact Hk.
 Qed.
 
 (* --- v nR *)
-Lemma repeat_sound : forall s is_last, skind s = KR -> node_diag (NSc s) is_last = "" ->
-  exists ps toks exp, node_pieces (NSc s) is_last = Ok ps /\ reads_as ps toks is_last /\
-    means toks exp /\ vlist_close exp (map leaf_val (snodes s)) = true.
+Lemma repeat_sound : forall s, skind s = KR -> describes s None = true -> sc_diag s false = "" -> body_sound s.
 Proof.
-  intros s is_last K H. cbn [node_diag] in H. unfold sc_diag in H. rewrite K in H.
+  intros s K D H. unfold sc_diag in H. rewrite K in H.
   apply sapp_nil in H. destruct H as [Hf H].
   apply sapp_nil in H. destruct H as [Hn H].
   apply sapp_nil in H. destruct H as [Hc H].
   apply sapp_nil in H. destruct H as [Hd He].
   apply code_nil in Hn; [|discriminate]. apply code_nil in Hd; [|discriminate].
-  apply negb_false_iff in Hd. apply endpad_ok in He. destruct He as [Hw Hp].
-  assert (Hp' : is_last = true \/ sendpad s <> "") by (destruct Hp as [?|[?|?]]; auto; discriminate).
+  apply negb_false_iff in Hd.
   unfold first_leaf in Hf. destruct (snodes s) as [|f rs] eqn:En; [discriminate|]. cbn [hd_error] in Hf.
-  apply inner_leaf_ok in Hf. destruct Hf as [Hfw Hfe].
+  apply inner_leaf_ok in Hf. destruct (ensure_blank_word _ Hf) as [Hfw [Hfe Hfn]].
   unfold sem_ok, expect_repeat in Hd. destruct (lval f) as [q|] eqn:Ef; [|discriminate].
-  cbn [node_pieces]. unfold format_sc. rewrite K. unfold format_repeat, first_leaf. rewrite En. cbn [hd_error].
+  unfold body_sound, format_sc. rewrite D, K. cbn [negb]. unfold format_repeat, first_leaf. rewrite En. cbn [hd_error].
   set (c := (zlen (f :: rs) - 1)%Z) in *.
   assert (Hc0 : (0 <= c)%Z) by (apply Z.ltb_ge; exact Hn).
   assert (Hcn : Z.to_nat c = List.length rs).
@@ -778,14 +910,15 @@ Proof.
   assert (Ho : omitted = true -> c = 1%Z).
   { subst omitted. intros E. apply andb_true_iff in E. destruct E as [E _].
     apply andb_true_iff in E. destruct E as [E _]. apply Z.eqb_eq in E. exact E. }
-  exists ([leaf_piece f] ++ (if omitted then [PcLet KR rl] else [count_piece s c; PcLet KR rl]) ++ pad_pieces (sendpad s)).
+  exists ([first_piece f] ++ cl_pieces s c omitted KR rl).
   exists [TNum q; TRep (count_tok omitted c)], (VQ q :: repeat (VQ q) (List.length rs)).
-  split; [|split; [|split]].
-  - destruct omitted; cbn [app]; reflexivity.
-  - intros r acc Hl. rewrite <- !app_assoc. cbn [app]. unfold leaf_piece. rewrite Ef.
-    rewrite pt_word by auto. cbn [app piece_tag]. 
-    rewrite (pt_count_letter s c omitted KR rl (sendpad s) is_last r) by auto.
-    cbn [mk_tok flush group_tok]. rewrite <- app_assoc. reflexivity.
+  destruct (cl_render [first_piece f] s c omitted KR rl Hrl) as [Hr1 Hr2].
+  split; [unfold cl_pieces; destruct omitted; reflexivity|]. split; [exact Hr1|]. split; [|split].
+  - intros suffix is_last Hs r acc Hl. rewrite <- !app_assoc. cbn [app]. unfold first_piece. rewrite Ef.
+    rewrite pt_word by auto. cbn [app piece_tag].
+    rewrite pt_count_letter by auto. rewrite Hs; auto.
+    + rewrite cl_flush by (auto; discriminate). cbn [flush group_tok]. rewrite <- app_assoc. reflexivity.
+    + rewrite Hr2. discriminate.
   - intros prev rest. cbn [app spec_expand_aux]. rewrite cnt_count_tok by exact Ho. rewrite Hcn.
     exists (Some (VQ q)). destruct (spec_expand_aux (Some (VQ q)) rest); reflexivity.
   - exact Hd.
@@ -794,56 +927,63 @@ Qed.
 (* --- v xM *)
 Lemma qzero_false : forall q, qzero q = false -> ~ q == 0.
 Proof. intros q H E. unfold qzero in H. apply Qeq_bool_iff in E. congruence. Qed.
+Lemma qzero_true : forall q, qzero q = true -> q == 0.
+Proof. intros q H. unfold qzero in H. apply Qeq_bool_iff. exact H. Qed.
 
-Lemma multiply_sound : forall s is_last, skind s = KM -> node_diag (NSc s) is_last = "" ->
-  exists ps toks exp, node_pieces (NSc s) is_last = Ok ps /\ reads_as ps toks is_last /\
-    means toks exp /\ vlist_close exp (map leaf_val (snodes s)) = true.
+Lemma multiply_sound : forall s, skind s = KM -> describes s None = true -> smulok s = true ->
+  sc_diag s false = "" -> body_sound s.
 Proof.
-  intros s is_last K H. cbn [node_diag] in H. unfold sc_diag in H. rewrite K in H.
+  intros s K D Mo H. unfold sc_diag in H. rewrite K in H.
   apply sapp_nil in H. destruct H as [H He].
   apply sapp_nil in H. destruct H as [Hm H].
   apply sapp_nil in H. destruct H as [Hf H].
   apply sapp_nil in H. destruct H as [Hl Ho].
   apply code_nil in Hm; [|discriminate]. apply code_nil in Ho; [|discriminate].
   apply negb_false_iff in Hm. apply Z.eqb_eq in Hm.
-  apply endpad_ok in He. destruct He as [Hw Hp].
-  assert (Hp' : is_last = true \/ sendpad s <> "") by (destruct Hp as [?|[?|?]]; auto; discriminate).
   unfold first_leaf, last_leaf in *.
   destruct (snodes s) as [|f [|l [|x rs]]] eqn:En; unfold zlen in Hm; cbn [List.length] in Hm; try lia.
   cbn [hd_error rev app] in *.
   apply sapp_nil in Hf. destruct Hf as [Hf Hz].
-  apply inner_leaf_ok in Hf. destruct Hf as [Hfw Hfe].
+  apply inner_leaf_ok in Hf. destruct (ensure_blank_word _ Hf) as [Hfw [Hfe Hfn]].
   apply code_nil in Hz; [|discriminate]. apply code_nil in Hl; [|discriminate].
   destruct (lval f) as [b|] eqn:Ef; [|discriminate].
   destruct (lval l) as [a|] eqn:El; [|discriminate].
-  cbn [node_pieces]. unfold format_sc. rewrite K. unfold format_multiply, first_leaf, last_leaf.
-  rewrite En. cbn [hd_error rev app option_map]. rewrite Ho, Ef, El, Hz.
+  apply negb_false_iff in Hl.
+  unfold body_sound, format_sc. rewrite D, K. cbn [negb option_map].
+  unfold format_multiply, first_leaf, last_leaf.
+  rewrite En. cbn [hd_error rev app]. rewrite Ho, Ef, El, Mo. cbn [negb].
   set (m := if has_char "M" (sotok s) then "M" else "m").
   assert (Hml : cnt_txt_ok m = true) by (subst m; destruct (has_char "M" (sotok s)); reflexivity).
-  eexists. exists [TNum b; TMul (a / b)], [VQ b; VQ (b * (a / b))].
-  split; [reflexivity|]. split; [|split].
-  - intros r acc Hlast. rewrite <- !app_assoc. cbn [app]. unfold leaf_piece. rewrite Ef.
+  set (q := if qzero b then 1 else a / b).
+  exists ([first_piece f] ++ [PcMul q (sid s) (lid f) (lid l); PcLet KM m]).
+  exists [TNum b; TMul q], [VQ b; VQ (b * q)].
+  destruct (render_letter_end [first_piece f; PcMul q (sid s) (lid f) (lid l)] KM m Hml) as [Hr1 Hr2].
+  split; [reflexivity|]. split; [exact Hr1|]. split; [|split].
+  - intros suffix is_last Hs r acc Hlast. rewrite <- !app_assoc. cbn [app]. unfold first_piece. rewrite Ef.
     rewrite pt_word by auto. cbn [app piece_tag].
     rewrite pt_glue by reflexivity. rewrite pt_glue by exact Hml. cbn [app piece_tag].
-    rewrite (pt_finish _ is_last) by auto.
-    cbn [flush group_tok]. rewrite <- app_assoc. reflexivity.
-  - intros prev rest. cbn [app spec_expand_aux]. exists (Some (VQ (b * (a / b)))).
-    destruct (spec_expand_aux (Some (VQ (b * (a / b)))) rest); reflexivity.
+    rewrite Hs; auto.
+    + cbn [flush group_tok]. rewrite <- app_assoc. reflexivity.
+    + cbn [app] in Hr2. cbn [app]. rewrite Hr2. discriminate.
+  - intros prev rest. cbn [app spec_expand_aux]. exists (Some (VQ (b * q))).
+    destruct (spec_expand_aux (Some (VQ (b * q))) rest); reflexivity.
   - cbn [map vlist_close vclose]. unfold leaf_val. rewrite Ef, El. cbn [vclose].
     rewrite qclose_refl. cbn. unfold qclose.
-    assert (E : b * (a / b) == a) by (field; apply qzero_false; exact Hz).
+    assert (E : b * q == a).
+    { subst q. destruct (qzero b) eqn:Zb.
+      - apply qzero_true in Zb. cbn in Hl. apply qzero_true in Hl. rewrite Zb, Hl. ring.
+      - field. apply qzero_false; exact Zb. }
     rewrite (proj2 (Qeq_bool_iff _ _) E). reflexivity.
 Qed.
 
 (* --- v nI w  and  v nILOG w *)
-Lemma interp_sound : forall s is_last, (skind s = KI \/ skind s = KL) -> node_diag (NSc s) is_last = "" ->
-  exists ps toks exp, node_pieces (NSc s) is_last = Ok ps /\ reads_as ps toks is_last /\
-    means toks exp /\ vlist_close exp (map leaf_val (snodes s)) = true.
+Lemma interp_sound : forall s, (skind s = KI \/ skind s = KL) -> describes s None = true ->
+  sc_diag s false = "" -> body_sound s.
 Proof.
-  intros s is_last K H. cbn [node_diag] in H.
+  intros s K D H.
   assert (H' : exists k, skind s = k /\ (k = KI \/ k = KL)) by (exists (skind s); auto).
   destruct H' as [k [Kk Kc]].
-  unfold sc_diag in H. cbn [node_pieces]. unfold format_sc, format_interpolate.
+  unfold sc_diag in H. unfold body_sound, format_sc. rewrite D. cbn [negb]. unfold format_interpolate.
   set (c := (zlen (snodes s) - 2)%Z) in *.
   set (omitted := (c =? 1)%Z && Nat.leb 2 (sorig s) && negb (has_char "1" (sotok s))) in *.
   set (pad := if Nat.leb 3 (sorig s) then smidpad s else " ") in *.
@@ -854,10 +994,10 @@ Proof.
        count_diag s c omitted ++ code (negb (cnt_txt_ok word)) "x" ++
        code (negb (all_ws pad && negb (String.eqb pad ""))) "x" ++
        match last_leaf (snodes s) with
-       | Some e => (if String.eqb (ltxt e) "" then "v" else code (negb (word_ok (ltxt e))) "x") ++
-                   endpad_diag s (ends_blank (ltxt e)) is_last
+       | Some e => (if String.eqb (ltxt e) "" then "v" else code (negb (word_ok (ltxt e))) "x")
        | None => ""
-       end ++ code (negb (sem_ok (expect_interp (skind s) (snodes s)) (snodes s))) "l")%string = "").
+       end ++ endpad_diag s ++
+       code (negb (sem_ok (expect_interp (skind s) (snodes s)) (snodes s))) "l")%string = "").
   { destruct K as [K|K]; rewrite K in H; rewrite K; exact H. }
   clear H. rename H2 into H.
   apply sapp_nil in H. destruct H as [Hn H].
@@ -865,7 +1005,8 @@ Proof.
   apply sapp_nil in H. destruct H as [Hc H].
   apply sapp_nil in H. destruct H as [Hwd H].
   apply sapp_nil in H. destruct H as [Hpd H].
-  apply sapp_nil in H. destruct H as [Hl Hs].
+  apply sapp_nil in H. destruct H as [Hl H].
+  apply sapp_nil in H. destruct H as [Hep Hs].
   apply code_nil in Hn; [|discriminate]. apply code_nil in Hwd; [|discriminate].
   apply code_nil in Hpd; [|discriminate]. apply code_nil in Hs; [|discriminate].
   apply negb_false_iff in Hwd. apply negb_false_iff in Hpd. apply negb_false_iff in Hs.
@@ -878,65 +1019,160 @@ Proof.
   destruct (last_leaf (f :: x :: rs)) as [e|] eqn:El; [|discriminate].
   destruct (lval f) as [a|] eqn:Ef; [|discriminate].
   destruct (lval e) as [b|] eqn:Ee; [|discriminate].
-  apply inner_leaf_ok in Hf. destruct Hf as [Hfw Hfe].
-  apply sapp_nil in Hl. destruct Hl as [Hew Hep].
-  assert (Hew' : word_ok (ltxt e) = true).
-  { destruct (String.eqb (ltxt e) ""); [discriminate|]. apply code_nil in Hew; [|discriminate].
-    apply negb_false_iff in Hew. exact Hew. }
-  apply endpad_ok in Hep. destruct Hep as [Hw Hp].
+  apply inner_leaf_ok in Hf. destruct (ensure_blank_word _ Hf) as [Hfw [Hfe Hfn]].
+  assert (Hew : word_ok (ltxt e) = true).
+  { destruct (String.eqb (ltxt e) ""); [discriminate|]. apply code_nil in Hl; [|discriminate].
+    apply negb_false_iff in Hl. exact Hl. }
   assert (Ho : omitted = true -> c = 1%Z).
   { subst omitted. intros E. apply andb_true_iff in E. destruct E as [E _].
     apply andb_true_iff in E. destruct E as [E _]. apply Z.eqb_eq in E. exact E. }
   assert (Hcn : Z.to_nat c = (List.length (f :: x :: rs) - 2)%nat).
   { subst c. unfold zlen. cbn [List.length]. lia. }
-  set (cntp := if omitted then [] else [count_piece s c]).
-  exists ([leaf_piece f] ++ cntp ++ [PcLet (skind s) word] ++ pad_pieces pad ++ [leaf_piece e] ++ pad_pieces (sendpad s)).
-  exists [TNum a; mk_tok k (count_tok omitted c); TNum b].
-  assert (Hread : reads_as ([leaf_piece f] ++ cntp ++ [PcLet (skind s) word] ++ pad_pieces pad ++ [leaf_piece e]
-                            ++ pad_pieces (sendpad s))
-                           [TNum a; mk_tok k (count_tok omitted c); TNum b] is_last).
-  { intros r acc Hlast. rewrite <- !app_assoc. cbn [app]. unfold leaf_piece. rewrite Ef, Ee.
+  set (body := [first_piece f] ++ cl_pieces s c omitted (skind s) word ++ pad_pieces pad ++ [leaf_piece e]).
+  assert (Hfmt : (match skind s with
+                  | KJ => Ok (format_jump s)
+                  | KR => format_repeat s false
+                  | KM => match format_multiply s (option_map (fun p => last_leaf (snodes p)) None) with
+                          | Err e0 => Err e0
+                          | Ok (Some ps) => Ok ps
+                          | Ok None => Ok (format_expanded s false)
+                          end
+                  | _ => Ok ([first_piece f] +++
+                             (if omitted then [] else [count_piece s c]) +++
+                             [PcLet (skind s) word] +++ pad_pieces pad +++ [leaf_piece e])
+                  end) = Ok body).
+  { subst body. unfold cl_pieces. destruct K as [K|K]; rewrite K; destruct omitted; reflexivity. }
+  assert (Hrb : render body <> "" /\ ends_ws (render body) = ends_blank (ltxt e)).
+  { subst body. rewrite !app_assoc. rewrite render_app, render_cons. cbn [render map String.concat piece_text leaf_piece].
+    rewrite sappend_nil_r. pose proof (word_ok_nonempty _ Hew) as Hne.
+    split; [apply sappend_nonempty_r; exact Hne|]. rewrite ends_ws_app by exact Hne. apply ends_ws_word; exact Hew. }
+  destruct Hrb as [Hr1 Hr2].
+  exists body, [TNum a; mk_tok k (count_tok omitted c); TNum b].
+  assert (Hread : forall suffix is_last, suffix_ok body suffix is_last ->
+                  reads_as (body ++ suffix) [TNum a; mk_tok k (count_tok omitted c); TNum b] is_last).
+  { intros suffix is_last Hsx r acc Hlast. subst body. rewrite <- !app_assoc. cbn [app].
+    unfold first_piece, leaf_piece. rewrite Ef, Ee.
     rewrite pt_word by auto. cbn [app piece_tag].
-    assert (Hshape : cntp ++ PcLet (skind s) word :: pad_pieces pad ++ PcLeaf (Some b) (ltxt e) :: pad_pieces (sendpad s) ++ r
-                     = (if omitted then [PcLet (skind s) word] else [count_piece s c; PcLet (skind s) word])
-                       ++ pad_pieces pad ++ (PcLeaf (Some b) (ltxt e) :: pad_pieces (sendpad s) ++ r)).
-    { subst cntp. destruct omitted; reflexivity. }
-    rewrite Hshape.
-    rewrite (pt_count_letter s c omitted (skind s) word pad false) by (auto; discriminate).
-    rewrite (pt_leaf_finish _ _ _ is_last) by (auto; destruct Hp as [?|[?|?]]; auto).
-    cbn [app flush group_tok]. rewrite Kk. clear Kk.
-    destruct Kc as [Kc|Kc]; rewrite Kc; rewrite <- !app_assoc; reflexivity. }
+    rewrite pt_count_letter by auto.
+    rewrite pad_pieces_cons by exact Hpne. cbn [app]. rewrite pt_pad by auto.
+    assert (Hkm : skind s <> KM) by (destruct K as [K|K]; rewrite K; discriminate).
+    rewrite cl_flush by auto.
+    destruct (ends_blank (ltxt e)) eqn:Eb.
+    - rewrite pt_word by auto. cbn [app piece_tag]. rewrite Hsx; auto.
+      cbn [flush group_tok]. rewrite Kk. rewrite <- !app_assoc. reflexivity.
+    - rewrite pt_word_glue by auto. cbn [app piece_tag]. rewrite Hsx; auto.
+      + cbn [flush group_tok]. rewrite Kk. rewrite <- !app_assoc. reflexivity.
+      + rewrite Hr2. discriminate. }
   destruct Kc as [Kc|Kc]; rewrite Kc in *; clear Kc; rewrite Kk in *.
   - exists (VQ a :: lin_steps a b (Z.to_nat c) 1 (Z.to_nat c) ++ [VQ b]).
-    split; [|split; [exact Hread|split]].
-    + subst cntp. rewrite <- !app_assoc. reflexivity.
+    split; [|split; [exact Hr1|split; [exact Hread|split]]].
+    + clear Hfmt Hread. subst body. unfold cl_pieces. subst omitted c. rewrite ?Kk.
+      match goal with |- context [if ?bb then [] else _] => destruct bb end; reflexivity.
     + intros prev rest. cbn [app spec_expand_aux mk_tok]. rewrite cnt_count_tok by exact Ho.
       exists (Some (VQ b)). destruct (spec_expand_aux (Some (VQ b)) rest); cbn; rewrite <- ?app_assoc; reflexivity.
     + rewrite Hcn. exact Hs.
   - destruct (qpos a && qpos b) eqn:Hpos; [|discriminate].
     exists (VQ a :: log_steps a b (Z.to_nat c) 1 (Z.to_nat c) ++ [VQ b]).
-    split; [|split; [exact Hread|split]].
-    + subst cntp. rewrite <- !app_assoc. reflexivity.
+    split; [|split; [exact Hr1|split; [exact Hread|split]]].
+    + clear Hfmt Hread. subst body. unfold cl_pieces. subst omitted c. rewrite ?Kk.
+      match goal with |- context [if ?bb then [] else _] => destruct bb end; reflexivity.
     + intros prev rest. cbn [app spec_expand_aux mk_tok]. rewrite cnt_count_tok by exact Ho. rewrite Hpos.
       exists (Some (VQ b)). destruct (spec_expand_aux (Some (VQ b)) rest); cbn; rewrite <- ?app_assoc; reflexivity.
     + rewrite Hcn. exact Hs.
 Qed.
 
-(* ------------------------------------------------------------------ whole lists *)
+(* --- a shortcut written as plain values *)
+Definition tokv (v : val) : tok := match v with VQ q => TNum q | _ => TJmp None end.
+
+Lemma plain_reads : forall ps (pending is_last : bool) g,
+  plain_ok ps pending is_last = true ->
+  (pending = false -> g = []) -> (pending = true -> exists v, g = [GLeaf v]) ->
+  forall r acc, (is_last = true -> r = []) ->
+    piece_tokens_aux (ps ++ r) g acc = piece_tokens_aux r [] (flush g acc ++ map tokv (plain_vals ps)).
+Proof.
+  induction ps as [|p ps IH]; intros pending is_last g H Hg0 Hg1 r acc Hr.
+  - cbn [plain_ok] in H. cbn [app plain_vals map]. rewrite app_nil_r.
+    destruct pending.
+    + cbn in H. subst is_last. rewrite (Hr eq_refl). reflexivity.
+    + rewrite (Hg0 eq_refl). reflexivity.
+  - destruct p as [v t|n t|q s a b|k t|t]; cbn [plain_ok] in H; try discriminate.
+    + apply andb_true_iff in H. destruct H as [H H3]. apply andb_true_iff in H. destruct H as [H1 H2].
+      apply negb_true_iff in H1. subst pending. rewrite (Hg0 eq_refl). cbn [app].
+      assert (Hfl : forall acc0, flush [GLeaf v] acc0 = acc0 ++ [tokv (match v with Some q => VQ q | None => VJ end)]).
+      { intros. destruct v; reflexivity. }
+      destruct (ends_blank t) eqn:Eb.
+      * rewrite pt_word by auto. cbn [app piece_tag].
+        rewrite (IH false is_last []) by (auto; discriminate). cbn [flush group_tok].
+        rewrite ?flush_nil, Hfl. destruct v; cbn [plain_vals map]; rewrite <- app_assoc; reflexivity.
+      * rewrite pt_word_glue by auto. cbn [app piece_tag].
+        rewrite (IH true is_last [GLeaf v]); auto; [|discriminate|eauto].
+        rewrite ?flush_nil, Hfl. destruct v; cbn [plain_vals map]; rewrite <- app_assoc; reflexivity.
+    + apply andb_true_iff in H. destruct H as [H H3]. apply andb_true_iff in H. destruct H as [H1 H2].
+      apply negb_true_iff in H2. cbn [app]. rewrite pt_pad; auto.
+      * rewrite (IH false is_last []) by (auto; discriminate). rewrite ?flush_nil. reflexivity.
+      * intros E. rewrite E in H2. discriminate.
+Qed.
+
+Lemma plain_means : forall ps, means (map tokv (plain_vals ps)) (plain_vals ps).
+Proof.
+  assert (G : forall vs, Forall (fun v => v = VJ \/ exists q, v = VQ q) vs -> means (map tokv vs) vs).
+  { induction vs as [|v vs IH]; intros H prev rest.
+    - exists prev. cbn. destruct (spec_expand_aux prev rest); reflexivity.
+    - inversion H as [|x l Hv Hvs]; subst. specialize (IH Hvs).
+      destruct Hv as [E|[q E]]; subst v; cbn [map tokv app spec_expand_aux].
+      + destruct (IH (Some VJ) rest) as [p' Hp]. exists p'. cbn [cnt repeat]. rewrite Hp.
+        destruct (spec_expand_aux p' rest); reflexivity.
+      + destruct (IH (Some (VQ q)) rest) as [p' Hp]. exists p'. rewrite Hp.
+        destruct (spec_expand_aux p' rest); reflexivity. }
+  intros ps. apply G. induction ps as [|p ps IH]; [constructor|].
+  destruct p as [[q|] t| | | |]; cbn [plain_vals]; auto; constructor; eauto.
+Qed.
+
+Lemma sc_diag_endpad : forall s, sc_diag s false = "" -> all_ws (sendpad s) = true.
+Proof.
+  intros s H. unfold sc_diag in H. destruct (skind s).
+  - do 4 (apply sapp_nil in H; destruct H as [_ H]). apply endpad_ok; exact H.
+  - apply sapp_nil in H; destruct H as [_ H]. apply endpad_ok; exact H.
+  - do 3 (apply sapp_nil in H; destruct H as [_ H]). apply endpad_ok; exact H.
+  - do 6 (apply sapp_nil in H; destruct H as [_ H]). apply sapp_nil in H; destruct H as [H _]. apply endpad_ok; exact H.
+  - do 6 (apply sapp_nil in H; destruct H as [_ H]). apply sapp_nil in H; destruct H as [H _]. apply endpad_ok; exact H.
+Qed.
+
+(* --- any node *)
 Lemma node_sound : forall n is_last, node_diag n is_last = "" ->
   exists ps toks exp, node_pieces n is_last = Ok ps /\ reads_as ps toks is_last /\
     means toks exp /\ vlist_close exp (map leaf_val (lnode_leaves n)) = true.
 Proof.
   intros [l|s] is_last H.
   - apply free_leaf_sound; auto.
-  - cbn [lnode_leaves]. destruct (skind s) eqn:K.
-    + apply repeat_sound; auto.
-    + apply multiply_sound; auto.
-    + apply jump_sound; auto.
-    + apply interp_sound; auto.
-    + apply interp_sound; auto.
+  - cbn [lnode_leaves]. unfold node_diag, node_diag_of in H. unfold node_pieces.
+    destruct (node_out (NSc s) None is_last) as [ps|e] eqn:No; [|discriminate].
+    cbn [lead_of] in H.
+    destruct (expanded_mode s None) eqn:Em.
+    + apply sapp_nil in H. destruct H as [Hp Hq].
+      apply code_nil in Hp; [|discriminate]. apply code_nil in Hq; [|discriminate].
+      apply negb_false_iff in Hp. apply negb_false_iff in Hq.
+      exists ps, (map tokv (plain_vals ps)), (plain_vals ps).
+      split; [reflexivity|]. split; [|split; [apply plain_means|exact Hq]].
+      intros r acc Hr. rewrite (plain_reads ps false is_last []) by (auto; discriminate). reflexivity.
+    + unfold expanded_mode in Em. apply orb_false_iff in Em. destruct Em as [Ed Em].
+      apply negb_false_iff in Ed.
+      assert (B : body_sound s).
+      { destruct (skind s) eqn:K.
+        - apply repeat_sound; auto.
+        - apply negb_false_iff in Em. apply multiply_sound; auto.
+        - apply jump_sound; auto.
+        - apply interp_sound; auto.
+        - apply interp_sound; auto. }
+      destruct B as [body [toks [exp [Hf [Hrn [Hrd [Hm Hv]]]]]]].
+      cbn [node_out lead_of] in No. rewrite Hf in No. inversion No; subst ps; clear No.
+      pose proof (sc_diag_endpad _ H) as Hw.
+      destruct (tail_reads body (sendpad s) is_last Hw Hrn) as [suffix [Hb Hs]].
+      rewrite Hb. exists (body ++ suffix), toks, exp. split; [reflexivity|]. split; [|split; auto].
+      apply Hrd. exact Hs.
 Qed.
 
+(* ------------------------------------------------------------------ whole lists *)
 Definition nosh (nodes : list lnode) : Prop :=
   Forall (fun n => match n with NSc s => sshare s = false | NVal _ => True end) nodes.
 Definition is_nil {A} (l : list A) : bool := match l with [] => true | _ => false end.
@@ -956,24 +1192,33 @@ Fixpoint diag_all (nodes : list lnode) : list string :=
   | n :: r => node_diag n (is_nil r) :: diag_all r
   end.
 
+Lemma lead_of_nosh : forall n prev, match n with NSc s => sshare s = false | NVal _ => True end ->
+  lead_of n prev = None.
+Proof. intros [l|s] [[l0|p]|] H; cbn; auto. rewrite H. reflexivity. Qed.
+
+Lemma node_out_nosh : forall n prev is_last, match n with NSc s => sshare s = false | NVal _ => True end ->
+  node_out n prev is_last = node_out n None is_last.
+Proof.
+  intros [l|s] prev is_last H; [reflexivity|]. unfold node_out. rewrite (lead_of_nosh (NSc s) prev H). reflexivity.
+Qed.
+
 Lemma format_nodes_nosh : forall nodes prev, nosh nodes -> format_nodes nodes prev = fmt_all nodes.
 Proof.
   induction nodes as [|n r IH]; intros prev H; [reflexivity|].
   inversion H as [|n' r' Hn Hr]; subst. cbn [format_nodes fmt_all].
-  rewrite (IH (Some n) Hr).
-  destruct n as [l|s].
-  - cbn [node_pieces]. destruct r; reflexivity.
-  - cbn [node_pieces]. rewrite Hn. destruct prev as [[l0|p]|]; reflexivity.
+  rewrite (IH (Some n) Hr). unfold node_pieces. rewrite (node_out_nosh n prev _ Hn).
+  destruct r; reflexivity.
 Qed.
 
 Lemma nodes_diag_nosh : forall nodes prev, nosh nodes -> nodes_diag nodes prev = diag_all nodes.
 Proof.
   induction nodes as [|n r IH]; intros prev H; [reflexivity|].
   inversion H as [|n' r' Hn Hr]; subst. cbn [nodes_diag diag_all].
-  rewrite (IH (Some n) Hr). f_equal.
-  destruct n as [l|s]; cbn [node_diag].
-  - destruct r; reflexivity.
-  - rewrite Hn. destruct r; destruct prev as [[l0|p]|]; reflexivity.
+  rewrite (IH (Some n) Hr). f_equal. unfold node_diag.
+  assert (E : forall il, node_diag_of n prev il = node_diag_of n None il).
+  { intros il. destruct n as [l|s]; [reflexivity|]. unfold node_diag_of.
+    rewrite (node_out_nosh (NSc s) prev il Hn). rewrite (lead_of_nosh (NSc s) prev Hn). reflexivity. }
+  rewrite E. destruct r; reflexivity.
 Qed.
 
 Lemma fmt_all_sound : forall nodes, Forall (fun d => d = "") (diag_all nodes) ->
@@ -1334,23 +1579,21 @@ Proof.
         rewrite <- Hids in Hin. destruct Hin as [E|Hin].
         -- subst id'. apply in_or_app. right. left. reflexivity.
         -- apply in_app_or in Hin. apply in_or_app. destruct Hin; [left|right; right]; auto.
-    + (* the shortcut cannot even take the value it was bound to: it dissolves *)
+    + (* the shortcut cannot even take the value it was bound to: it dissolves (a jump there is collected) *)
       apply consume_shape in C. destruct C as [Hs1 Hn1].
       assert (Hid1 : sid s1 = id) by (destruct Hs1 as (E1&_); congruence).
+      destruct (zorphan i v EVal _) as [[e' st1]|er] eqn:O; [|discriminate].
       inversion H; subst st'; clear H.
-      exists (SFree v :: segs).
-      constructor; cbn [zdone zstore zcur zlast zfresh].
-      * rewrite Hdone. reflexivity.
-      * cbn [map snd rev]. rewrite <- app_assoc. exact Hvals.
-      * intros id' ns' [E|Hin]; [discriminate|].
+      refine (zorphan_step vals (mkZ (zdone st) (put_sc s1 (zstore st)) None le (zfresh st)) v todo
+                segs e' st1 _ _ _ _ _ _ _ _ O);
+        cbn [zdone zstore zcur zlast zfresh]; auto.
+      * intros id' ns' Hin.
         destruct (Hsegs id' ns' Hin) as [Hne' Hg]. split; auto.
         apply sc_good_put_other; auto. rewrite Hid1. intros E. subst id'.
         apply Hnot. apply in_or_app. left. eapply in_seg_ids; eauto.
       * intros id' Hin. apply sc_good_put_other; [apply Htodo; right; exact Hin|].
         rewrite Hid1. intros E. subst id'. apply Hnot. apply in_or_app. right. exact Hin.
-      * exact Hnd'.
-      * discriminate.
-      * intros _. cbn [List.length]. fold i. subst le. destruct (zcur st) eqn:Ec.
+      * fold i. subst le. destruct (zcur st) eqn:Ec.
         -- apply (free_prefix_le 1); [exact I|lia].
         -- apply (free_prefix_le (S (i - 1 - zlast st))); [apply Hfree; reflexivity|lia].
       * intros id' Hin. apply Hfresh. apply in_app_or in Hin. apply in_or_app.
@@ -1501,12 +1744,17 @@ Qed.
 Definition good_node (n : lnode) : Prop :=
   match n with NSc s => sshare s = false /\ sc_inv s /\ snodes s <> [] | NVal _ => True end.
 
+(* what a leaf is, apart from its formatting flags *)
+Definition bare (l : leaf) : Z * option Q := (lid l, lval l).
+Lemma bare_unpin : forall l, bare (unpin l) = bare l.
+Proof. intros l. unfold unpin, bare. destruct (lpad l); reflexivity. Qed.
+
 Lemma collect_fsegs : forall fsegs store lastsc,
   NoDup (seg_ids fsegs) ->
   (forall id, lastsc = Some id -> ~ In id (seg_ids fsegs)) ->
   (forall id ns, In (SSc id ns) fsegs -> ns <> [] /\ sc_good store id ns) ->
   exists nodes scs, collect (flat_map fwd_entries fsegs) store lastsc = (nodes, scs) /\
-    Forall2 (fun g n => lnode_leaves n = seg_leaves g /\ good_node n) fsegs nodes.
+    Forall2 (fun g n => map bare (lnode_leaves n) = map bare (seg_leaves g) /\ good_node n) fsegs nodes.
 Proof.
   induction fsegs as [|g r IH]; intros store lastsc Hnd Hl Hg.
   - exists [], []. split; [reflexivity|constructor].
@@ -1514,9 +1762,9 @@ Proof.
     + cbn [seg_ids flat_map app] in *. fold (seg_ids r) in *.
       destruct (IH store lastsc Hnd Hl) as [nodes [scs [Hc Hf]]].
       { intros id ns Hin. apply Hg. right; exact Hin. }
-      exists (NVal v :: nodes), scs. cbn [flat_map fwd_entries app collect].
+      exists (NVal (unpin v) :: nodes), scs. cbn [flat_map fwd_entries app collect].
       fold (flat_map fwd_entries r). rewrite Hc. split; [reflexivity|].
-      constructor; [split; [reflexivity|exact I]|exact Hf].
+      constructor; [split; [cbn; rewrite bare_unpin; reflexivity|exact I]|exact Hf].
     + cbn [seg_ids flat_map app] in *. fold (seg_ids r) in *.
       inversion Hnd as [|x l Hx Hnd']; subst.
       destruct (Hg id ns (or_introl eq_refl)) as [Hne [s [Hfind [Hid [Hn [Hsh Hi]]]]]].
@@ -1531,7 +1779,7 @@ Proof.
       { destruct lastsc as [l|]; [|reflexivity]. apply Z.eqb_neq. intros E.
         apply (Hl l eq_refl). left. symmetry. exact E. }
       rewrite Hsame, Hfind, collect_skip, Hc. split; [reflexivity|].
-      constructor; [|exact Hf]. split; [exact Hn|]. cbn [good_node]. rewrite Hn.
+      constructor; [|exact Hf]. split; [cbn [lnode_leaves seg_leaves]; rewrite Hn; reflexivity|]. cbn [good_node]. rewrite Hn.
       split; [exact Hsh|]. split; [exact Hi|discriminate].
 Qed.
 
@@ -1542,11 +1790,11 @@ Proof.
 Qed.
 
 Lemma flatten_Forall2 : forall fsegs nodes,
-  Forall2 (fun g n => lnode_leaves n = seg_leaves g /\ good_node n) fsegs nodes ->
-  flatten nodes = flat_map seg_leaves fsegs /\ Forall good_node nodes.
+  Forall2 (fun g n => map bare (lnode_leaves n) = map bare (seg_leaves g) /\ good_node n) fsegs nodes ->
+  map bare (flatten nodes) = map bare (flat_map seg_leaves fsegs) /\ Forall good_node nodes.
 Proof.
   intros fsegs nodes H; induction H as [|g n fs ns [H1 H2] Hf [IH1 IH2]]; [split; [reflexivity|constructor]|].
-  split; [|constructor; auto]. cbn [flatten flat_map]. fold (flatten ns). rewrite H1, IH1. reflexivity.
+  split; [|constructor; auto]. cbn [flatten flat_map]. fold (flatten ns). rewrite !map_app, H1, IH1. reflexivity.
 Qed.
 
 Lemma good_nosh : forall nodes, Forall good_node nodes -> nosh nodes.
@@ -1583,7 +1831,7 @@ Theorem update_partition : forall shorts vals f0 l,
   NoDup (map sid shorts) -> (forall s, In s shorts -> (sid s < f0)%Z) ->
   update shorts vals f0 = Ok l ->
   Forall good_node (lnodes l) /\
-  exists tl, vals = flatten (lnodes l) ++ tl /\ Forall (fun x => lval x = None) tl.
+  exists tl, map bare vals = map bare (flatten (lnodes l) ++ tl) /\ Forall (fun x => lval x = None) tl.
 Proof.
   intros shorts vals f0 l Hnd Hlt H.
   destruct (list_eq_dec (fun a b : unit => left (match a, b with tt, tt => eq_refl end)) (map (fun _ => tt) vals) [])
@@ -1620,9 +1868,9 @@ Proof.
   { intros id ns Hin. apply Hsegs. apply in_rev. exact Hin. }
   rewrite Hc in H.
   destruct (flatten_Forall2 _ _ Hf) as [Hfl Hgood].
-  assert (Hall : flatten nodes = vals).
+  assert (Hall : map bare (flatten nodes) = map bare vals).
   { rewrite Hfl, <- map_snd_fwd, <- rev_done_of, <- Hdone, map_rev.
-    cbn [map] in Hvals. rewrite app_nil_r in Hvals. exact Hvals. }
+    cbn [map] in Hvals. rewrite app_nil_r in Hvals. rewrite Hvals. reflexivity. }
   destruct (rev nodes) as [|last rn] eqn:Er.
   - inversion H; subst l. cbn [lnodes]. split; [exact Hgood|].
     exists []. rewrite app_nil_r. split; [symmetry; exact Hall|constructor].
@@ -1672,6 +1920,12 @@ Qed.
 
 (* the written list expands to exactly the new values, one per position, jumps staying jumps (jumps at the very end
    may be left off) - whenever every node of the rebuilt list is printed soundly *)
+Lemma leaf_val_bare : forall a b, map bare a = map bare b -> map leaf_val a = map leaf_val b.
+Proof.
+  induction a as [|x a IH]; intros [|y b] H; cbn in H; try discriminate; [reflexivity|].
+  inversion H as [[H1 H2 H3]]. cbn [map]. f_equal; [|apply IH; exact H3]. unfold leaf_val. rewrite H2. reflexivity.
+Qed.
+
 Theorem recompress_partial : forall shorts vals f0 l,
   NoDup (map sid shorts) -> (forall s, In s shorts -> (sid s < f0)%Z) ->
   update shorts vals f0 = Ok l -> format_ok l = true ->
@@ -1681,7 +1935,7 @@ Proof.
   destruct (update_partition _ _ _ _ Hnd Hlt Hu) as [Hgood [tl [Hv Htl]]].
   destruct (format_sound l (good_nosh _ Hgood) Hok) as [ps [out [Hf [Hr Hc]]]].
   unfold recompress_ok. rewrite Hu, Hf, Hr.
-  rewrite Hv, map_app.
+  rewrite (leaf_val_bare _ _ Hv), map_app.
   rewrite strip_app_jumps.
   - apply strip_nil_iff. exact Hc.
   - apply Forall_map. eapply Forall_impl; [|exact Htl]. intros a Ha. unfold leaf_val. rewrite Ha. reflexivity.
